@@ -60,19 +60,19 @@ Definition expiry_applies (cfg : config) (m : metric) : bool :=
   | _, _ => false
   end.
 
-Lemma filter_daemonset cfg nd p st : p_ds p = true -> filter_decide cfg nd p st = 0.
+Lemma filter_daemonset cfg nd p st : daemonset p = true -> filter_decide cfg nd p st = 0.
 Proof. intro H. unfold filter_decide. now rewrite H. Qed.
 
 Lemma filter_no_metric cfg nd p : filter_decide cfg nd p None = 0.
 Proof.
-  unfold filter_decide. destruct (p_ds p); [reflexivity|].
+  unfold filter_decide. destruct (daemonset p); [reflexivity|].
   destruct (select_thresholds _ _) as [[[[thr isAgg] aggT] aggD] prodPod].
   now destruct (vempty thr).
 Qed.
 
 (* the full decision for a non-daemonset pod on a node with a stored report *)
 Lemma filter_decide_table cfg nd p m get thr isAgg aggT aggD prodPod est :
-  p_ds p = false ->
+  daemonset p = false ->
   select_thresholds (node_profile cfg nd) (is_prod p) = (thr, isAgg, aggT, aggD, prodPod) ->
   get prodPod aggT aggD = Some est ->
   filter_decide cfg nd p (Some (m, get)) =
@@ -89,7 +89,7 @@ Qed.
 (* nodes without fresh metrics: rejected exactly when scheduling on expired metrics is
    explicitly disabled, skipped otherwise *)
 Lemma filter_expired cfg nd p m get thr isAgg aggT aggD prodPod est :
-  p_ds p = false ->
+  daemonset p = false ->
   select_thresholds (node_profile cfg nd) (is_prod p) = (thr, isAgg, aggT, aggD, prodPod) ->
   vempty thr = false ->
   get prodPod aggT aggD = Some est ->
@@ -114,7 +114,7 @@ Qed.
 
 (* a fresh report: the threshold loop alone decides *)
 Lemma filter_fresh cfg nd p m get thr isAgg aggT aggD prodPod est :
-  p_ds p = false ->
+  daemonset p = false ->
   select_thresholds (node_profile cfg nd) (is_prod p) = (thr, isAgg, aggT, aggD, prodPod) ->
   get prodPod aggT aggD = Some est ->
   expiry_applies cfg m = false -> is_some (m_info m) = true ->
@@ -223,7 +223,7 @@ Proof. intro H. unfold node_profile. now rewrite H. Qed.
 (* Filter on the cache reached by ANY history, stated on the from-scratch estimate *)
 Lemma filter_sound_complete cfg ops nd p n m thr isAgg aggT aggD prodPod :
   alookup (nd_name nd) (run cfg ops) = Some n -> n_metric n = Some m ->
-  p_ds p = false ->
+  daemonset p = false ->
   select_thresholds (node_profile cfg nd) (is_prod p) = (thr, isAgg, aggT, aggD, prodPod) ->
   expiry_applies cfg m = false -> is_some (m_info m) = true ->
   (filter cfg (run cfg ops) nd p = 0 <->
